@@ -353,6 +353,11 @@ def removal(rep, prog):
             pfn = it
             if pred.get("k") == "LambdaExpr":
                 pbody, pparam = pred["body"], (pred["params"][0]["did"] if pred.get("params") else None)
+            elif pred.get("k") == "DeclRefExpr" and pred["ref"].get("dk") == "Var":
+                for v_ in walk(it["body"]):
+                    if v_.get("k") == "Var" and v_.get("did") == pred["ref"]["did"] and isinstance(v_.get("init"), dict) and strip(v_["init"]).get("k") == "LambdaExpr":
+                        lam_ = strip(v_["init"])
+                        pbody, pparam = lam_["body"], (lam_["params"][0]["did"] if lam_.get("params") else None)
             elif pred.get("k") == "DeclRefExpr" and pred["ref"].get("dk") == "Function":
                 cands = [f for f in prog.fns(pred["ref"].get("qn") or pred["ref"]["name"]) if isinstance(f.get("body"), dict)]
                 if len(cands) == 1:
